@@ -20,6 +20,11 @@ pub const CPU_LIMIT_S: f64 = 5.0;
 pub fn envelope_cpu_us(len: usize, units: u64) -> u64 {
     150_000 + 60 * len as u64 + 3_000 * units
 }
+/// Inputs that are only parsed and inspected (kinds `*-parse`): no cryptographic work is done, so
+/// the allowance per byte is much smaller — 150 ms + 0.4 us/byte (reading 1.5 MB takes ~15 ms).
+pub fn envelope_parse_cpu_us(len: usize) -> u64 {
+    150_000 + (4 * len as u64) / 10
+}
 pub fn envelope_peak(len: usize) -> u64 {
     (2 << 20) + 96 * len as u64
 }
@@ -46,6 +51,9 @@ fn judge(inp: &Input, out: &Outcome) -> Result<Option<Reply>, Fail> {
             }
             if r.status != "ok" && r.status != "err" {
                 return Err(Fail::new("worker-protocol", format!("unexpected reply {:?}", r)));
+            }
+            if inp.kind.ends_with("-parse") && r.cpu_us > envelope_parse_cpu_us(len) {
+                return Err(Fail::new("cpu-envelope-exceeded", format!("{} input ({} bytes, {}): {} us of CPU to parse and inspect, envelope {}", inp.kind, len, inp.class, r.cpu_us, envelope_parse_cpu_us(len))));
             }
             if r.cpu_us > envelope_cpu_us(len, r.units) {
                 return Err(Fail::new("cpu-envelope-exceeded", format!("{} input ({} bytes, {}): {} us of CPU for {} work units, envelope {}", inp.kind, len, inp.class, r.cpu_us, r.units, envelope_cpu_us(len, r.units))));
@@ -443,6 +451,36 @@ pub fn run(ctx: &Ctx, col: &Collector) -> Meta {
                         }
                     }
                 }
+                // crafted: a well-formed user key / public key with tens of thousands of distinct
+                // rights (reading must stay linear), parsed and inspected only
+                for (k, b) in child.seeds.clone() {
+                    let n = if ctx.thorough { 90_000usize } else { 40_000 };
+                    let right = |i: usize| -> Vec<u8> {
+                        let mut r = vec![];
+                        crate::wire::leb_encode(200 + (i as u64 % 16_000), &mut r);
+                        crate::wire::leb_encode(17_000 + (i as u64 / 16_000), &mut r);
+                        r
+                    };
+                    let bytes = match k.as_str() {
+                        "usk" => wire::WUsk::decode(&b).ok().and_then(|mut w| {
+                            let sec = w.rights.iter().flat_map(|(_, c)| c.iter()).find(|x| !x.hyb).cloned()?;
+                            w.rights = (0..n).map(|i| (right(i), vec![sec.clone()])).collect();
+                            Some(w.encode())
+                        }),
+                        "mpk" => wire::WMpk::decode(&b).ok().and_then(|mut w| {
+                            let key = w.keys.iter().map(|(_, k)| k).find(|x| !x.hyb).cloned()?;
+                            w.keys = (0..n).map(|i| (right(i), key.clone())).collect();
+                            Some(w.encode())
+                        }),
+                        _ => None,
+                    };
+                    if let Some(bytes) = bytes {
+                        // one of each is enough: the seeds of a kind differ in shape only
+                        if !inputs.iter().any(|x: &Input| x.kind == format!("{k}-parse") && x.class == "crafted:many-rights") {
+                            inputs.push(Input { kind: format!("{k}-parse"), bytes, class: "crafted:many-rights".into(), changes_count: true });
+                        }
+                    }
+                }
                 // every worker has its own seeds (same shapes, different random bytes and hash
                 // orders), so the enumerations are not index-aligned across workers: an input is
                 // owned by the worker given by a stable hash of (kind, class, k-th of that group)
@@ -508,7 +546,7 @@ pub fn run(ctx: &Ctx, col: &Collector) -> Meta {
     }
     Meta {
         level: "fault_enumeration",
-        rule: format!("for valid serializations of encapsulations (classic, hybridized, multi-target), an encrypted header, user keys (two revisions, hybridized), a public key, a master key and an access structure, produced inside an isolated worker process: every truncation (strided beyond 300 bytes for large objects in the quick tier), single-byte corruptions (xor 01 / xor 80 / 00 / ff at every offset of small objects, strided for large ones), every count / length / flag field located by the independent codec replaced by each of {BOUNDARY:?} and value+-1, over-long LEB128, zero-element variants (no traps, no markers, no rights, empty chains, no tracers, empty structure), generated splices / smashes / insertions / removals and random strings, crafted structures of 10-26 one-attribute dimensions (alone, inside a public key, inside a master key; parsed and inspected only); every mutant that parses is used (decaps with honest keys, recaps, header decrypt, refresh, encaps under a parsed public key, key generation / update / rekey with a parsed master key, accessors). Oracle: a value or an error — no panic, abort, signal — with CPU <= 150ms + 60us/byte + 3ms per decapsulation trial, peak allocation <= 2MiB + 96 B/byte, largest single allocation <= 512KiB + 24 B/byte. Non-trivial = mutant of a count / length field, or mutant that parses; distinct by (type, mutation class, parsed?)"),
+        rule: format!("for valid serializations of encapsulations (classic, hybridized, multi-target), an encrypted header, user keys (two revisions, hybridized), a public key, a master key and an access structure, produced inside an isolated worker process: every truncation (strided beyond 300 bytes for large objects in the quick tier), single-byte corruptions (xor 01 / xor 80 / 00 / ff at every offset of small objects, strided for large ones), every count / length / flag field located by the independent codec replaced by each of {BOUNDARY:?} and value+-1, over-long LEB128, zero-element variants (no traps, no markers, no rights, empty chains, no tracers, empty structure), generated splices / smashes / insertions / removals and random strings, crafted structures of 10-26 one-attribute dimensions (alone, inside a public key, inside a master key; parsed and inspected only), a user key and a public key with 40 000 distinct rights (90 000 in the thorough tier; parsed and inspected only, CPU <= 150 ms + 0.4 us/byte); every mutant that parses is used (decaps with honest keys, recaps, header decrypt, refresh, encaps under a parsed public key, key generation / update / rekey with a parsed master key, accessors). Oracle: a value or an error — no panic, abort, signal — with CPU <= 150ms + 60us/byte + 3ms per decapsulation trial, peak allocation <= 2MiB + 96 B/byte, largest single allocation <= 512KiB + 24 B/byte. Non-trivial = mutant of a count / length field, or mutant that parses; distinct by (type, mutation class, parsed?)"),
         exhaustive: false,
         assumptions: vec![
             "'proportional' is an envelope with calibrated constants (ratio of use recorded in notes); a regression inside the envelope is not detected".into(),
